@@ -161,6 +161,26 @@ def check(tier, seed, replay=None):
                 txt = "(extract_regex_group .s %s %d)" % (plit, rnd.choice([0, 1, 1, 2, ngroups, ngroups + 1]))
             regex[len(items)] = [{"p": X.cps(ptxt), "ast": past}]
             items.append((X.strip(EP.parse(txt, table)), ("obj", [(X.cps("s"), ("str", X.cps(subj)))]), [], [], txt))
+        # (vi) base64: encodings of UTF-8 texts, of byte strings that are not UTF-8, and single-fault corruptions of encodings
+        import base64 as B64
+        for i in range(150 if quick else 5000):
+            raw = rnd.choice([lambda: "".join(rnd.choice("ab é日\n\u00ff~") for _ in range(rnd.choice([0, 1, 2, 3, 4, 5, 7]))).encode("utf-8"),
+                              lambda: bytes(rnd.randrange(256) for _ in range(rnd.choice([1, 2, 3, 4])))])()
+            enc_ = B64.b64encode(raw).decode("ascii")
+            k = rnd.randrange(8)
+            if k == 0 and enc_.endswith("="):
+                enc_ = enc_.rstrip("=")                                   # padding left out
+            elif k == 1 and enc_:
+                j = rnd.randrange(len(enc_))
+                enc_ = enc_[:j] + rnd.choice("-_ .!é") + enc_[j + 1:]      # a character outside the alphabet
+            elif k == 2 and enc_.endswith("=") and not enc_.endswith("=="):
+                enc_ = enc_[:-2] + rnd.choice("BCDFGH") + "="              # unused bits not zero
+            elif k == 3 and enc_.endswith("=="):
+                enc_ = enc_[:-3] + rnd.choice("BCDEFGHIJKLMNOP") + "=="
+            elif k == 4:
+                enc_ = enc_ + rnd.choice(["=", "A", "==", "\n"])
+            txt = "(%s .s)" % rnd.choice(["base63_decode", "base64"])
+            items.append((X.strip(EP.parse(txt, table)), ("obj", [(X.cps("s"), ("str", X.cps(enc_)))]), [], [], txt))
     cases = []
     for i, (ast, inp, vs, ms, txt) in enumerate(items):
         c = EL.select_case(txt, inp, vs, ms)
